@@ -30,13 +30,13 @@ loop_value_signed!(stmt_loop_value_dint, DInt, i32);
 // @unit id=stmt.loop_value.lint props=C01,C02,C03 tier=quick kind=proof fn=coerce_loop_value
 loop_value_signed!(stmt_loop_value_lint, LInt, i64);
 
-// Unsigned control variable, non-negative n (a negative n is known finding F3: TypeMismatch).
+// Unsigned control variable, non-negative n (a negative n is known finding K3: TypeMismatch).
 macro_rules! loop_value_unsigned {
     ($name:ident, $var:ident, $ty:ty) => {
         #[kani::proof]
         fn $name() {
             let n: i64 = kani::any();
-            kani::assume(n >= 0); // known finding F3 excluded: n < 0 yields the static-class error TypeMismatch
+            kani::assume(n >= 0); // known finding K3 excluded: n < 0 yields the static-class error TypeMismatch
             let t: $ty = kani::any();
             let r = coerce_loop_value(&Value::$var(t), n);
             let fits = (n as u64) <= <$ty>::MAX as u64;
@@ -56,10 +56,10 @@ loop_value_unsigned!(stmt_loop_value_udint, UDInt, u32);
 // @unit id=stmt.loop_value.ulint props=C01,C02,C03 tier=quick kind=proof fn=coerce_loop_value
 loop_value_unsigned!(stmt_loop_value_ulint, ULInt, u64);
 
-// witness of known finding F3 (prints KNOWN-FINDING while it is still present)
-// @unit id=stmt.loop_value.F3_witness props=C01 tier=quick kind=proof known=F3-unsigned-negative fn=coerce_loop_value
+// witness of known finding K3 (prints KNOWN-FINDING while it is still present)
+// @unit id=stmt.loop_value.K3_witness props=C01 tier=quick kind=proof known=K3-for-unsigned-negative fn=coerce_loop_value
 #[kani::proof]
-fn stmt_loop_value_f3_witness() {
+fn stmt_loop_value_k3_witness() {
     let n: i64 = kani::any();
     let r = coerce_loop_value(&Value::UInt(0), n);
     let hit = n < 0 && matches!(&r, Err(RuntimeError::TypeMismatch));
